@@ -83,6 +83,30 @@ func factsC13() {
 		})
 	}
 	emitStr("matcherKeyNameLen", "pkg/store/cache/matchers_cache.go cacheKey: the length prefix", nameLen)
+	// everything in GetOrSet that makes two lookups share a result: the assignment of `key`, and the
+	// first argument of the singleflight call and of every access to the LRU cache, in source order
+	var sharing []string
+	if gos := fn(g, "LruMatchersCache", "GetOrSet"); gos != nil && gos.Body != nil {
+		ast.Inspect(gos.Body, func(n ast.Node) bool {
+			switch x := n.(type) {
+			case *ast.AssignStmt:
+				if len(x.Lhs) >= 1 && len(x.Rhs) == 1 && text(x.Lhs[0]) == "key" {
+					sharing = append(sharing, "key="+text(x.Rhs[0]))
+				}
+			case *ast.CallExpr:
+				name := callName(x)
+				if (strings.HasPrefix(name, "c.sf.") || strings.HasPrefix(name, "c.cache.")) && name != "c.cache.Len" {
+					arg := ""
+					if len(x.Args) > 0 {
+						arg = text(x.Args[0])
+					}
+					sharing = append(sharing, name+"("+arg+")")
+				}
+			}
+			return true
+		})
+	}
+	emitList("matcherSharingKeys", "pkg/store/cache/matchers_cache.go GetOrSet: the key, and the first argument of the singleflight call and of every LRU access", sharing)
 }
 
 func factsC12() {
